@@ -8,7 +8,8 @@ from .. import core, model, synth
 ID = "C08"
 LEVEL = "exploration"
 RULE = ("each case is a pair of fresh interpreters: P1 runs a random interleaving of unit definitions, equivalence "
-        "declarations (simple, compound, re-declared with another value, bridging shipped units) and conversion / "
+        "declarations (simple, compound, re-declared with another value, bridging shipped units; every fourth history "
+        "over scales with a zero point - shipped and declared at run time - and compound units carrying them) and conversion / "
         "== / < queries - with queries deliberately placed *before* the declarations that enable or change them - and "
         "finally re-asks a fixed list of queries; P2 runs only the declarations (same order) and then the same final "
         "queries.  Final outcomes must be identical (same magnitude bits or same exception type); in P1 every repeated "
@@ -91,6 +92,77 @@ def gen_history(rng, tag, shipped):
     return ({"modules": mods, "ops": ops1}, {"modules": mods, "ops": ops2}, finals, final_start, after_flush, base_start, len(defs), len(decls))
 
 
+def gen_scale_history(rng, tag):
+    """the same experiment over units with a zero point: the shipped temperature scales, scales declared at run
+    time, and compound units that carry a scale at an exponent other than 1 (J/K, W/(m*K), 1/degC, K**2); the
+    final queries are the plain scale conversions and comparisons, the queries in between are mostly the
+    compound ones (whose own values are nobody's business here: only whether asking them changes a later answer)"""
+    T = ["dimname", "temperature"]
+    shipped = ["kelvin", "celsius", "fahrenheit", "Rankine"]
+    mine = [f"zq{tag}deg{k}" for k in range(rng.randint(1, 2))]
+    decls = []
+    for k, n in enumerate(mine):
+        zero_unit = rng.choice(shipped[:1] + ["Rankine"])
+        decls.append(["scale", n, n, T, ["f", float(rng.choice([100, 255.375, 32, 491.67])).hex()], ["u", zero_unit]])
+    step = f"zq{tag}step"
+    defs = [["define", step, step, T]]
+    decls.append(["declare", ["u", step], ["f", (2.5).hex()], ["u", "kelvin"]])
+    rng.shuffle(decls)
+    scales = shipped + mine + [step]
+
+    def scale_term(n):
+        t = ["u", n]
+        if rng.random() < 0.25:
+            t = ["pfx", rng.choice(["milli", "kilo", "micro"]), t]
+        return t
+
+    def plain_query():
+        a, b = rng.sample(scales, 2)
+        kind = rng.choice(["convert", "convert", "convert", "eq", "lt"])
+        mag = rng.choice([["i", 0], ["i", 100], ["f", (273.15).hex()], ["f", (-40.0).hex()], ["i", 300], ["d", "25.5"], ["f", (491.67).hex()], small_mag(rng)])
+        if kind == "convert":
+            return ["convert", mag, scale_term(a), scale_term(b)]
+        return [kind, mag, scale_term(a), small_mag(rng), scale_term(b)]
+
+    def compound_query():
+        a, b = rng.sample(scales, 2)
+        e = rng.choice([-1, -1, -2, 2, 3])
+        carrier = rng.choice([None, ["u", "joule"], ["mul", ["u", "watt"], ["pow", ["u", "meter"], -1]], ["u", "second"]])
+
+        def wrap(n):
+            t = ["pow", ["u", n], e]
+            return t if carrier is None else ["mul", carrier, t]
+        kind = rng.choice(["convert", "convert", "eq", "lt"])
+        if kind == "convert":
+            return ["convert", small_mag(rng), wrap(a), wrap(b)]
+        return [kind, small_mag(rng), wrap(a), small_mag(rng), wrap(b)]
+
+    finals = [plain_query() for _ in range(rng.randint(8, 14))] + [compound_query() for _ in range(2)]
+    ops1 = list(defs)
+    if rng.random() < 0.5:
+        ops1 += finals
+    for d in decls:
+        for _ in range(rng.randint(1, 5)):
+            ops1.append(compound_query() if rng.random() < 0.6 else rng.choice(finals))
+        ops1.append(["cache_info"])
+        ops1.append(d)
+    for _ in range(rng.randint(2, 6)):
+        ops1.append(compound_query() if rng.random() < 0.8 else plain_query())
+    final_start = len(ops1)
+    ops1 += finals
+    ops1 += [["cache_info"], ["flush"]]
+    after_flush = len(ops1)
+    ops1 += finals
+    ops2 = list(defs) + list(decls)
+    base_start = len(ops2)
+    ops2 += finals
+    mods = ["si", "us"]
+    return ({"modules": mods, "ops": ops1}, {"modules": mods, "ops": ops2}, finals, final_start, after_flush, base_start, len(defs), len(decls))
+
+
+small_mag = synth.small_mag
+
+
 class Num:
     """a returned magnitude compared *numerically*: the route a plan takes may depend on the
     order in which compound units happened to be interned, which changes a Decimal's
@@ -167,7 +239,11 @@ def run(ctx):
     n = ctx.scale(128, 3000)
     cases = []
     for i in range(n):
-        cases.append(gen_history(rng, tag=f"c08s{ctx.seed}i{i}", shipped=(i % 3 == 2)))
+        if i % 4 == 1:
+            cases.append(gen_scale_history(rng, tag=f"c08s{ctx.seed}i{i}"))
+            ctx.count("histories_over_units_with_a_zero_point")
+        else:
+            cases.append(gen_history(rng, tag=f"c08s{ctx.seed}i{i}", shipped=(i % 3 == 2)))
     specs = []
     for c in cases:
         specs += [c[0], c[1]]
@@ -191,7 +267,7 @@ def run(ctx):
         earlier = {}
         last_decl_index = -1
         for idx, op in enumerate(spec1["ops"][:final_start]):
-            if op[0] == "declare":
+            if op[0] in ("declare", "scale"):
                 last_decl_index = idx
             elif op[0] in ("convert", "eq", "lt"):
                 earlier.setdefault(repr(op), []).append((idx, outcome(r1[idx])))
@@ -226,7 +302,7 @@ def run(ctx):
         # repeated queries with no declaration in between must repeat their answer
         for key, askings in earlier.items():
             for (i1, o1), (i2, o2) in zip(askings, askings[1:]):
-                if not any(op[0] == "declare" for op in spec1["ops"][i1:i2]):
+                if not any(op[0] in ("declare", "scale") for op in spec1["ops"][i1:i2]):
                     ctx.count("repeated_queries_compared")
                     if o1 != o2:
                         ctx.violation("C08:repeated-query-differs", f"{key}: {o1} then {o2} with no declaration in between", case_base)
@@ -238,7 +314,7 @@ def run(ctx):
         ctx.count("final_queries_asked_before_a_declaration_that_changes_them", changed_by_later_declaration)
         ctx.distinct((ndefs, ndecls, tuple(op[0] for op in spec1["ops"][ndefs:final_start])), changed_by_later_declaration > 0)
         if len(ctx.samples) < 4 and changed_by_later_declaration:
-            ctx.sample({"units_defined": ndefs, "declarations": ndecls, "interleaving": "".join({"declare": "D", "convert": "q", "eq": "q", "lt": "q", "cache_info": ""}.get(op[0], "") for op in spec1["ops"][ndefs:final_start]),
+            ctx.sample({"units_defined": ndefs, "declarations": ndecls, "interleaving": "".join({"declare": "D", "scale": "S", "convert": "q", "eq": "q", "lt": "q", "cache_info": ""}.get(op[0], "") for op in spec1["ops"][ndefs:final_start]),
                         "final_queries": len(finals), "answers_changed_by_later_declarations": changed_by_later_declaration})
     ctx.require("final_queries_compared", 50)
     ctx.require("final_queries_asked_before_a_declaration_that_changes_them", 5)
